@@ -391,3 +391,31 @@ class Result:
         with open(os.path.join(ROOT, "evidence", f"{self.pid}.json"), "w") as f:
             json.dump(ev, f, indent=1, default=str)
         return rc
+
+
+# ---------------------------------------------------------------- guards for implementation runs
+class ImplTimeout(Exception):
+    pass
+
+
+def guarded(fn, seconds=20):
+    """run fn() but give up after `seconds` (never a verdict: the caller counts it as skipped)"""
+    import signal
+
+    def handler(signum, frame):
+        raise ImplTimeout()
+    old = signal.signal(signal.SIGALRM, handler)
+    signal.setitimer(signal.ITIMER_REAL, seconds)
+    try:
+        return fn()
+    finally:
+        signal.setitimer(signal.ITIMER_REAL, 0)
+        signal.signal(signal.SIGALRM, old)
+
+
+def limit_memory(gb=10):
+    import resource
+    try:
+        resource.setrlimit(resource.RLIMIT_AS, (gb << 30, gb << 30))
+    except Exception:
+        pass
